@@ -33,6 +33,22 @@ def exists(f, lo=None, hi=None):
     return any(f(k) for k in range(lo, hi))
 
 
+def unshared(x):
+    """x is not one of the library's module- or class-level objects."""
+    import engineio
+    import types
+    for name, mod in list(sys.modules.items()):
+        if not name.startswith('engineio') or mod is None:
+            continue
+        for v in vars(mod).values():
+            if v is x:
+                return False
+            if isinstance(v, type):
+                if any(a is x for a in vars(v).values()):
+                    return False
+    return True
+
+
 def exists_split(f, s):
     return any(f(s[:k], s[k:]) for k in range(len(s) + 1))
 
@@ -145,7 +161,7 @@ def generic(rec):
     ct = rec['contract']
     glob = dict(vars(spec))
     glob.update(implies=implies, forall=forall, exists=exists, typeis=typeis,
-                exists_split=exists_split)
+                exists_split=exists_split, unshared=unshared)
     # the concretised input must satisfy the precondition, else the model does not transfer
     for lab, src in ct['requires']:
         try:
